@@ -24,4 +24,12 @@ def instances():
                         stubs=FMT_STUBS + CTX_STUBS + CONTAINER_STUBS, unwind=4, unwindset=EMPTY_DECL_UNWIND, timeout=600, tier="quick" if st == 2 else "thorough",
                         bounds="2 existing variables + 1 new name, %d registerSymbol calls, scalar types" % st,
                         inputs="initial types and safety flag, per call: which name, which type"))
+    CL_TUS = [t for t in CORE_TUS if t != "blocc/executable.cpp"] + ["blocc/statement_forall.cpp", "blocc/statement_for.cpp", "blocc/expression_variable.cpp"]
+    for loop, ln in ((0, "for"), (1, "forall.var"), (2, "forall.tmp")):
+        for sc in ("F", "SF", "E", "Z", "XE", "SXE", "XFE", "XZ"):
+            out.append(Inst(id="c11.clause.%s.%s" % (ln, sc), props=["C11", "C06", "C01"], harness="h_clause.cpp", entry="c11_clause", tus=CL_TUS,
+                            defs=["VX_LOOP=%d" % loop, 'VX_SCRIPT="%s"' % sc], stubs=FMT_STUBS + CTX_STUBS + CONTAINER_STUBS, unwind=len(sc) + 2, timeout=600,
+                            tier="quick" if sc in ("F", "Z") else "experimental" if ("X" in sc or sc == "E") else "thorough",
+                            bounds="parse_clause of %s with the body script %s (S separator, X statement, F failing statement, E END, Z end of text)" % (ln, sc),
+                            inputs="flags of the iterator and table symbols before"))
     return out
